@@ -144,7 +144,7 @@ static void op_first(hist_t *h, const char *op, int refact)
     vt->gstrf(&h->opt, &h->AC, h->perm_r, &h->L, &h->U, &h->gs, &info);
     g_track = 0;
     sched_end_factor();
-    if (count_tasks() != t0) step_fail(h, op, "C04:thread_count_changed", "threads before %d after %d", t0, count_tasks());
+    if (tasks_after(t0) != t0) step_fail(h, op, "C04:thread_count_changed", "threads before %d after %d", t0, count_tasks());
     h->have_factors = 1; h->last_usepr = usepr;
     feat_add(refact ? "refacts" : "firsts", 1);
     check_factor_step(h, op, info, usepr, pr_in);
@@ -162,6 +162,10 @@ static void op_solve(hist_t *h, const char *op)
     /* only valid if the last factorization succeeded */
     const char *bad = validate_LU(vt, n, &h->L, &h->U, 1, 0); if (bad || !is_perm(h->perm_r, n)) { feat_add("solve_skipped_singular", 1); return; }
     dense_lu *D = extract_LU(vt, n, &h->L, &h->U);
+    { ld mn = INFINITY, mxl = 0; for (int j = 0; j < n; ++j) { ld a = zq_abs(D->U[(size_t)j * n + j]); if (a < mn) mn = a; } for (size_t k = 0; k < (size_t)n * n; ++k) { ld a = zq_abs(D->L[k]); if (a > mxl) mxl = a; } feat("min_ujj", (double)mn); feat("max_l", (double)mxl);
+      ld mxu = 0; for (int j = 0; j < n; ++j) { ld a = zq_abs(D->U[(size_t)j * n + j]); if (a > mxu) mxu = a; }
+      /* a value change (pivbreak) may leave a matrix that is singular to working precision: the solve may overflow; nothing is claimed for it */
+      if (mn < 100 * n * (ld)vt->eps * mxu) { free_dense_lu(D); feat_add("solve_skipped_illcond", 1); return; } }
     for (int j = 0; j < n; ++j) { zq u = D->U[(size_t)j * n + j]; if (u.re == 0 && u.im == 0) { free_dense_lu(D); feat_add("solve_skipped_singular", 1); return; } }
     void *bval; SuperMatrix B; make_dense_B(vt, n, nrhs, n > 0 ? n : 1, &bval, &B, 0);
     for (long k = 0; k < (long)n * nrhs; ++k) el_set(vt, bval, k, 2 * urand(&r) - 1, vt->is_complex ? 2 * urand(&r) - 1 : 0);
@@ -297,9 +301,12 @@ void prop_C17(void)
         if (cnt != 0) { char d[1200]; live_describe(d, sizeof d, 6);
             /* signature: innermost library frames of the first survivor */
             char sg[200]; snprintf(sg, sizeof sg, "C17:leak:%.150s", d); char *e = strchr(sg + 9, ']'); if (e) e[1] = 0;
+            /* strip size and raw addresses so that the signature is the call chain only */
+            { char t[200]; size_t o = 0; const char *q = sg; while (*q && o + 1 < sizeof t) { if (q[0] == '0' && q[1] == 'x') { while (*q && *q != '<' && *q != ']') q++; if (q[0] == '<' && q[1] == '-') q += 2; continue; }
+                  if (*q == '[') { t[o++] = *q++; while (*q && *q != '@') q++; if (*q == '@') q++; continue; } t[o++] = *q++; } t[o] = 0; snprintf(sg, sizeof sg, "%s", t); }
             verdict_fail(sg, "after repetition %d of the history and the documented destroy calls %ld library blocks (%ld bytes) are still live: %s", rep + 1, cnt, after[rep], d); }
     }
-    if (count_tasks() != t0) verdict_fail("C17:thread_outlives_call", "threads before %d after %d", t0, count_tasks());
+    if (tasks_after(t0) != t0) verdict_fail("C17:thread_outlives_call", "threads before %d after %d", t0, count_tasks());
     if (count_fds() != f0) verdict_fail("C17:fd_leak", "open file descriptors before %d after %d", f0, count_fds());
     feat("nops", G->nops);
     verdict_pass();
